@@ -111,6 +111,7 @@ type gCfg struct {
 	fixAP    bool // every location / stored value has exactly maxAP array positions
 	allWide  bool // no narrow-number assumption at all (corpus batches pin every number)
 	noFx     bool // freq of hits with locations is exactly the number of locations
+	valLens  []int // stored value lengths, cycled over (doc+field+occurrence); default 0..3
 }
 
 type gen struct {
@@ -263,6 +264,9 @@ func vGenBatch(cfg gCfg) ([]index.Document, *sSpec) {
 					opts |= index.StoreField
 					// distinct, position-coded, lengths 0..3
 					vl := (d + fi + o) % 4
+					if len(cfg.valLens) > 0 {
+						vl = cfg.valLens[(d+fi+o)%len(cfg.valLens)]
+					}
 					val = make([]byte, vl)
 					for i := range val {
 						val[i] = byte(0x40 + 16*d + 4*fi + o + i)
